@@ -34,6 +34,7 @@ GATES = {
     "history_check_run_run": 1,
     "history_run_check_run": 1, "history_with_suffixed_validation_only": 1, "history_two_pipelines_on_one_machine": 10,
     "second_pipeline_drops_a_step_of_the_first": 2, "second_pipeline_reorders_steps_of_the_first": 2,
+    "completed_configuration_rechecked_with_permuted_steps": 5, "completed_configuration_rechecked_in_an_illegal_order": 2,
     "right_pass_observed": 1,
     "rejected_words": 100,
     "accepted_words": 100,
@@ -582,9 +583,37 @@ def _hist2(case, ctx, keys, kinds):
 
     m = pipes.new_machine()
     cfg_a = chk(m, pipe_a)
+    cfg_a_then = json.dumps(cfg_a, default=repr, sort_keys=False)
     if case["run_first"]:
         pandora.run(m, gen.deep_copy_ds(left), gen.deep_copy_ds(right), copy.deepcopy(cfg_a))
     cfg_b, seen, dig, has_right = go(m)
+    if case["via"] == "section" and json.dumps(cfg_a, default=repr, sort_keys=False) != cfg_a_then:
+        ctx.violation("earlier-result-changed-by-a-later-check", f"the configuration returned for {keys} changed when {keys_b} was checked on the "
+                      f"same machine: now {list(cfg_a['pipeline'])}", case, situation=f"{case['relation']}-via-{case['via']}")
+    # the COMPLETED configuration of B (every default written) handed back with its steps in another order: same verdict as
+    # on a new machine (a legal order is accepted with the same content, an illegal one is refused)
+    if case["via"] == "section" and len(keys_b) >= 3:
+        order = list(keys_b)
+        rr = ctx.rng("hist2-perm", case["part"], case["i"])
+        a_, b_ = sorted(rr.choice(len(order), 2, replace=False))
+        order[a_], order[b_] = order[b_], order[a_]
+        perm = {"pipeline": {k: copy.deepcopy(cfg_b["pipeline"][k]) for k in order}}
+
+        def verdict(mm):
+            try:
+                return "accepted", json.dumps(cc.check_pipeline_section(copy.deepcopy(perm), ml, mr, mm), default=repr, sort_keys=False)
+            except Exception as e:  # pylint: disable=broad-except
+                return "refused", type(e).__name__
+        # (on a machine of its own: a refused check legitimately leaves its machine with transitions, and m is inspected below)
+        m3 = pipes.new_machine()
+        chk(m3, pipe_b)
+        got_v, exp_v = verdict(m3), verdict(pipes.new_machine())
+        ctx.gate("completed_configuration_rechecked_with_permuted_steps")
+        ctx.gate("completed_configuration_rechecked_in_an_illegal_order", int(exp_v[0] == "refused"))
+        if got_v != exp_v:
+            ctx.violation("recheck-of-a-permuted-completed-configuration-differs",
+                          f"steps {order}: the machine that had checked {keys_b} says {got_v[0]} ({got_v[1][:80]}), a new machine says "
+                          f"{exp_v[0]} ({exp_v[1][:80]})", case, situation=exp_v[0])
     _, seen0, dig0, _ = go(pipes.new_machine())
     ctx.gate("history_two_pipelines_on_one_machine")
     ctx.gate("second_pipeline_drops_a_step_of_the_first", int(case["relation"] == "drop"))
